@@ -3,6 +3,7 @@ package main
 import (
 	"context"
 	"encoding/json"
+	"errors"
 	"fmt"
 	"sort"
 	"strings"
@@ -153,6 +154,8 @@ type scnObs struct {
 	store  []int
 	unk    []string
 	sub    *syncdrv.Sub
+	// a call did not return within syncdrv.CallBound: the scenario was abandoned there
+	timedOut int // index of the call + 1; 0 = none
 }
 
 func subOptions(c CfgJ, w *syncdrv.World) []dagsync.Option {
@@ -294,6 +297,12 @@ func execScn(sc Scn) scnObs {
 			}
 			panic("call type " + c.T)
 		})
+		if errors.Is(err, syncdrv.ErrCallTimeout) {
+			// the subscriber may be stuck inside the call: it is neither used again nor closed
+			out.timedOut = len(out.calls) + 1
+			srv.Reset(nil, nil)
+			return out
+		}
 		switch {
 		case pan != "":
 			co.ret, co.err = "panic", pan
@@ -954,6 +963,12 @@ func runScn(c *vlib.Ctx, sc Scn, verbose bool) {
 	sc.Kind = "sync"
 	o := execScn(sc)
 	c.Eval()
+	if o.timedOut != 0 {
+		js, _ := json.Marshal(sc.Calls)
+		failOnce(c, "sync-timeout", fmt.Sprintf("sync-does-not-return:call=%d:%s", o.timedOut-1, js),
+			fmt.Sprintf("call %d did not return within %v although its context expired after 20 s", o.timedOut-1, syncdrv.CallBound), sc)
+		return
+	}
 	if verbose {
 		for i, co := range o.calls {
 			fmt.Printf("call %d %+v:\n  return %s %d %s\n  hook log %v\n  requests %v (head queries %d, other %v)\n  latest sync %d\n", i, sc.Calls[i], co.ret, co.retRank, co.err, co.hooks, co.reqs, co.heads, co.other, co.latest)
